@@ -1,6 +1,7 @@
 package zzverif
 
 import (
+	"time"
 	"fmt"
 	"strings"
 
@@ -712,6 +713,13 @@ func genC06(d *Draw) Case {
 	} else {
 		g.connect(defs, cur, "EG", nil, -1)
 	}
+	// the last alternative may be a timer (the classic use of the gateway: an event, or else a time-out); the
+	// instance's timers run on a mock clock that the event plan advances at quiescent moments
+	timerAlt := acts == 1 && !two && d.N(4) == 3
+	if timerAlt {
+		alts = append([]EventDef{}, alts...)
+		alts[na-1] = EventDef{Kind: "timer", Ref: "tm", Timer: "D:PT5S"}
+	}
 	for i := 0; i < na; i++ {
 		c := g.addNode(&Node{ID: fmt.Sprintf("C%d", i+1), Kind: "catch", Events: []EventDef{alts[i]}})
 		t := g.addNode(&Node{ID: fmt.Sprintf("T%d", i+1), Kind: "task", Results: []string{fmt.Sprintf("r_T%d", i+1)}})
@@ -738,7 +746,7 @@ func genC06(d *Draw) Case {
 	c := &ProcCase{Buf: d.N(17), Hold: d.N(3)}
 	// event plan: a non-empty sequence over the competing events (plus an occasional stranger)
 	ne := 1 + d.N(4) + 2*(acts-1)
-	conc := d.N(3) == 2 && acts == 1 && !two
+	conc := d.N(3) == 2 && acts == 1 && !two && !timerAlt
 	if two {
 		ne += 2
 	}
@@ -750,6 +758,11 @@ func genC06(d *Draw) Case {
 			e = alts[d.N(na)] // the first one is always a real competitor
 		}
 		ep := EvPlan{Kind: e.Kind, Ref: e.Ref}
+		if e.Kind == "timer" {
+			// the timer's turn: the clock moves - not far enough (2s of 5s) or past the due time (the second jump)
+			ep = EvPlan{Kind: "clock", Ref: []string{"2s", "4s", "7s"}[d.N(3)]}
+			e.Ref = "clock+" + ep.Ref
+		}
 		if conc {
 			// delivered from separate goroutines at the same moment: once the gateway has armed its alternatives
 			ep.Own = true
@@ -779,7 +792,13 @@ func genC06(d *Draw) Case {
 	}
 	c.Prog = &Program{Defs: defs, Vars: map[string]any{}, Tags: tags, Desc: fmt.Sprintf("event gateway with %d alternatives %v, events %v concurrent=%v", na, alts[:na], evd, conc)}
 	c.Picks = drawPicks(d, 32)
-	c.Meta = map[string]int{"conc": b2i(conc), "na": na, "acts": acts, "two": b2i(two)}
+	c.Meta = map[string]int{"conc": b2i(conc), "na": na, "acts": acts, "two": b2i(two), "timerAlt": b2i(timerAlt)}
+	if timerAlt {
+		c.MockTimers = true
+		// in the end the clock certainly passes the due time: if no event won before, the time-out does
+		c.Events = append(c.Events, EvPlan{Kind: "clock", Ref: "9s", Last: true})
+		c.Prog.Desc += " [last alternative: timer PT5S on a mock clock]"
+	}
 	if two {
 		c.Prog.Tags = append(c.Prog.Tags, "two-tokens-at-the-gateway")
 		c.Prog.Desc += " two tokens (parallel fork in front of the gateway)"
@@ -811,6 +830,7 @@ func checkC06(cc Case, r *simrt.Result) *Outcome {
 	complete := false
 	quiesced := false
 	termAt := map[string]int{}
+	var mockNow time.Duration
 	for _, ev := range c.env.L.E {
 		switch ev.Kind {
 		case "t:determination":
@@ -825,6 +845,17 @@ func checkC06(cc Case, r *simrt.Result) *Outcome {
 			delivered[ev.A+":"+ev.B] = true
 			if listening >= na {
 				deliveredArmed[ev.A+":"+ev.B] = true
+			}
+		case "clock-advance":
+			if dur, err := time.ParseDuration(ev.A); err == nil {
+				before := mockNow
+				mockNow += dur
+				if before < 5*time.Second && mockNow >= 5*time.Second {
+					delivered["timer:tm"] = true
+					if listening >= na {
+						deliveredArmed["timer:tm"] = true
+					}
+				}
 			}
 		case "t:term":
 			termAt[ev.A]++
@@ -879,6 +910,8 @@ func checkC06(cc Case, r *simrt.Result) *Outcome {
 	probe(o, "events-race-with-arming", hasTag(c.Prog.Tags, "events-race-with-arming"))
 	probe(o, "gateway-re-entered", c.Meta["acts"] > 1 && det > 1)
 	probe(o, "two-tokens-at-the-gateway", c.Meta["two"] == 1)
+	probe(o, "timer-among-the-alternatives", c.Meta["timerAlt"] == 1)
+	probe(o, "timer-alternative-won", c.Meta["timerAlt"] == 1 && branchReq[fmt.Sprintf("T%d", na)] > 0)
 	probe(o, "event-nodes-inside-sub-process", c.Meta["nested"] > 0)
 	probe(o, "two-tokens-at-the-gateway-both-continued", c.Meta["two"] == 1 && det > 1)
 	probe(o, "several-competitors-delivered", func() bool {
